@@ -405,7 +405,7 @@ def ok_values(f, v):
             out.append(v.cx.operand(rv["ops"][0]))
         elif k == "call" and returns_result(f):
             out += ok_of(v.prog, v.cx.call(rv, v.cx.site(b)))
-    return out
+    return list(dict.fromkeys(out))       # the same value returned on several paths is one value
 
 
 class _NoFn:
